@@ -36,11 +36,11 @@ type Fam struct {
 
 var fams = map[string]*Fam{
 	"I": {Name: "I", Parts: []string{"K"}, Types: []string{"uint"},
-		Mod: map[string]interface{}{"P": IP{}, "O": IO{}, "M": IM{}, "T": IT{}, "G": IG{}, "N": IN{}, "L": IL{}, "C": IC{}, "U": IU{}, "H": IH{}}},
+		Mod: map[string]interface{}{"P": IP{}, "O": IO{}, "M": IM{}, "T": IT{}, "G": IG{}, "N": IN{}, "L": IL{}, "C": IC{}, "U": IU{}, "H": IH{}, "W": IW{}}},
 	"S": {Name: "S", Parts: []string{"K"}, Types: []string{"str"},
 		Mod: map[string]interface{}{"P": SP{}, "O": SO{}, "M": SM{}, "T": ST{}, "G": SG{}, "N": SN{}, "L": SL{}, "C": SC{}, "U": SU{}, "H": SH{}}},
 	"C": {Name: "C", Parts: []string{"A", "B"}, Types: []string{"str", "str"},
-		Mod: map[string]interface{}{"P": CP{}, "O": CO{}, "M": CM{}, "T": CT{}, "G": CG{}}},
+		Mod: map[string]interface{}{"P": CP{}, "O": CO{}, "M": CM{}, "T": CT{}, "G": CG{}, "W": CW{}}},
 	"M": {Name: "M", Parts: []string{"N", "S"}, Types: []string{"int", "str"},
 		Mod: map[string]interface{}{"P": MP{}, "O": MO{}, "M": MM{}, "T": MT{}, "G": MG{}}},
 	"R": {Name: "R", Parts: []string{"S", "N"}, Types: []string{"str", "int"},
@@ -67,6 +67,7 @@ type Rel struct {
 	M2M             bool
 	PF, CF          []string // Go field names (parent side, child side)
 	KT              []string // key part types when they are not the family's (keys overridden by tags)
+	OT              []string // many2many: key part types of the OWNER side when they differ from the target side's
 	TypeF           string   // polymorphic: Go field / db column of the type ("" = OwnerType / owner_type)
 	TypeC           string
 	Tbl             string // key of the join rows in Input.Tables ("" = "J")
@@ -132,6 +133,16 @@ func (f *Fam) rels() map[string]Rel {
 			JTable: strings.ToLower(f.Name) + "p_ctags", JOwner: []string{"owner_code"}, JTag: []string{"tag_code"}, Tbl: "J3"}
 		m["Subs"] = Rel{Name: "Subs", Kind: "has_many_references_tag", On: "P", Child: "U", PF: []string{"Code"}, CF: []string{"PCode"}, KT: st, CPtr: true}
 	}
+	if _, ok := f.Mod["W"]; ok { // many2many whose two sides have keys of different lengths (1/2 and 2/1)
+		w := Rel{Name: "WTags", On: "P", Child: "W", M2M: true, PF: f.Parts, OT: f.Types,
+			JTable: strings.ToLower(f.Name) + "p_wtags", JOwner: lower("owner_", f.Parts), Tbl: "J4"}
+		if len(f.Parts) == 1 {
+			w.Kind, w.CF, w.KT, w.JTag = "many2many_key_lengths_1_2", []string{"A", "B"}, []string{"str", "str"}, []string{"tag_a", "tag_b"}
+		} else {
+			w.Kind, w.CF, w.KT, w.JTag = "many2many_key_lengths_2_1", []string{"K"}, []string{"uint"}, []string{"tag_k"}
+		}
+		m["WTags"] = w
+	}
 	return m
 }
 
@@ -153,6 +164,9 @@ func (f *Fam) relNamesOnP() []string {
 	}
 	if _, ok := f.Mod["L"]; ok {
 		out = append(out, "Labels", "Cover", "Subs", "CTags")
+	}
+	if _, ok := f.Mod["W"]; ok {
+		out = append(out, "WTags")
 	}
 	return out
 }
@@ -709,6 +723,10 @@ func (e *Env) dumpJoins(f *Fam, rel Rel) []JoinRow {
 	defer rows.Close()
 	var out []JoinRow
 	n := len(rel.JOwner)
+	ot := f.kt(rel)
+	if rel.OT != nil {
+		ot = rel.OT
+	}
 	for rows.Next() {
 		raw := make([]interface{}, len(cols))
 		ptrs := make([]interface{}, len(cols))
@@ -717,8 +735,10 @@ func (e *Env) dumpJoins(f *Fam, rel Rel) []JoinRow {
 		}
 		lib.Must(rows.Scan(ptrs...))
 		var j JoinRow
-		for i := 0; i < n; i++ {
-			j.L = append(j.L, kpOfRaw(f.kt(rel)[i], false, raw[i]))
+		for i := range rel.JOwner {
+			j.L = append(j.L, kpOfRaw(ot[i], false, raw[i]))
+		}
+		for i := range rel.JTag {
 			j.R = append(j.R, kpOfRaw(f.kt(rel)[i], false, raw[n+i]))
 		}
 		out = append(out, j)
@@ -1321,7 +1341,9 @@ func formerShape(in Input) string {
 				rr := make([]KP, len(r.JTag))
 				for i := range r.JOwner {
 					l[i] = kpOfRaw(f.Types[i], false, row.F[r.JOwner[i]].arg())
-					rr[i] = kpOfRaw(f.Types[i], false, row.F[r.JTag[i]].arg())
+				}
+				for i := range r.JTag {
+					rr[i] = kpOfRaw(f.kt(r)[i], false, row.F[r.JTag[i]].arg())
 				}
 				jl, jr = append(jl, l), append(jr, rr)
 			}
@@ -1583,6 +1605,9 @@ func genInput(r *lib.Rng, edge bool) Input {
 			in.JoinDeep = ""
 		}
 	}
+	if in.Mode == "joins" && in.Nested != "" && !in.Unscoped {
+		in.Unscoped = r.Chance(1, 4) // Unscoped has to reach the joined relation and every preload below it
+	}
 	in.CondAll = Cond{Kind: "all"}
 	if in.Mode == "preload" && in.Nested == "" && !in.AllAssoc {
 		switch x := r.Intn(6); {
@@ -1804,6 +1829,50 @@ func genInput(r *lib.Rng, edge bool) Input {
 		setKey(&row, tags.JOwner, l)
 		setKey(&row, tags.JTag, g)
 		in.Tables["J"] = append(in.Tables["J"], row)
+	}
+	if wt, ok := rels["WTags"]; ok {
+		// many2many whose target key has another length (and other part types) than the owner key
+		wparts := make([][]Val, len(wt.KT))
+		for i, t := range wt.KT {
+			for j, k := 0, r.Range(2, 4); j < k; j++ {
+				wparts[i] = append(wparts[i], genPart(r, t, edge))
+			}
+		}
+		wtuple := func() []Val {
+			t := make([]Val, len(wparts))
+			for i := range t {
+				t[i] = lib.Pick(r, wparts[i])
+			}
+			return t
+		}
+		var wk [][]Val
+		for i, n := 0, r.Range(1, 5); i < n; i++ {
+			if t := wtuple(); !hasTuple(wk, t) {
+				wk = append(wk, t)
+				row := base()
+				setKey(&row, wt.CF, t)
+				in.Tables["W"] = append(in.Tables["W"], row)
+			}
+		}
+		var seen [][]Val
+		for i, n := 0, r.Range(1, 10); i < n && len(pk) > 0; i++ {
+			l, g := lib.Pick(r, pk), lib.Pick(r, wk)
+			if r.Chance(1, 6) {
+				l = lib.Pick(r, pool)
+			}
+			if r.Chance(1, 6) {
+				g = wtuple()
+			}
+			both := append(append([]Val{}, l...), g...)
+			if hasTuple(seen, both) {
+				continue
+			}
+			seen = append(seen, both)
+			row := Row{F: map[string]Val{}}
+			setKey(&row, wt.JOwner, l)
+			setKey(&row, wt.JTag, g)
+			in.Tables["J4"] = append(in.Tables["J4"], row)
+		}
 	}
 	if fr, ok := rels["Friends"]; ok { // self-referential many2many
 		var seen [][]Val
@@ -2032,6 +2101,93 @@ func targetedInputs() []Input {
 			}
 		}
 		out = append(out, Input{Fam: fam, Rel: "Many", Mode: "preload", Shape: "slice", Nested: "Owner", Nested2: "Many", Cond: all, Cond2: all, Tables: tables})
+		// the same forest with soft-deleted rows at EVERY level (a parent, joined bosses, rows of the
+		// relations preloaded below the join), read with and without Unscoped(): the flag has to reach
+		// the joined relation AND every preload below it
+		delRows := func(rows []Row, del func(i int) bool) []Row {
+			cp := make([]Row, len(rows))
+			for i, r := range rows {
+				cp[i] = Row{F: r.F, Del: del(i)}
+			}
+			return cp
+		}
+		tdel := map[string][]Row{
+			"P": delRows(ps, func(i int) bool { return i == 1 || i == 4 }),
+			"M": delRows(ms, func(i int) bool { return i%2 == 0 }),
+			"O": delRows(os, func(i int) bool { return i == 0 || i == 3 }),
+		}
+		for _, un := range []bool{true, false} {
+			for _, sh := range []struct {
+				shape string
+				sub   []int64
+			}{{"slice", nil}, {"ptrs", nil}, {"struct", []int64{104}}, {"struct", []int64{107}}} {
+				for _, n1 := range []string{"Many", "One", "Team", "Boss"} {
+					out = append(out,
+						Input{Fam: fam, Rel: "Boss", Mode: "joins", Unscoped: un, Shape: sh.shape, Subset: sh.sub, Nested: n1, Cond: all, Cond2: all, Tables: tdel},
+						Input{Fam: fam, Rel: "Boss", Mode: "joins", Unscoped: un, Shape: sh.shape, Subset: sh.sub, Nested: "Boss", Nested2: n1, Cond: all, Cond2: all, Tables: tdel},
+						Input{Fam: fam, Rel: "Boss", Mode: "preload", Unscoped: un, Shape: sh.shape, Subset: sh.sub, Nested: "Boss", Nested2: n1, Cond: all, Cond2: all, Tables: tdel})
+				}
+				out = append(out,
+					Input{Fam: fam, Rel: "Boss", Mode: "joins", Unscoped: un, Shape: sh.shape, Subset: sh.sub, JoinNested: "Boss", JoinForm: "all", Nested: "Many", Cond: all, Cond2: all, Tables: tdel},
+					Input{Fam: fam, Rel: "Boss", Mode: "joins", Unscoped: un, Shape: sh.shape, Subset: sh.sub, JoinNested: "Boss", JoinDeep: "One", JoinForm: "deep", Nested: "Boss", Nested2: "Many", Cond: all, Cond2: all, Tables: tdel})
+			}
+		}
+	}
+	// (g) many2many whose two sides have keys of DIFFERENT lengths: one owner column and two target
+	//     columns (family I), two owner columns and one target column (family C); some targets are
+	//     shared, one is soft-deleted, one join row points at no target
+	for _, fam := range []string{"I", "C"} {
+		f := fams[fam]
+		wt := f.rels()["WTags"]
+		okey := func(i int) []Val {
+			if len(f.Parts) == 1 {
+				return []Val{VI(int64(i + 1))}
+			}
+			return []Val{VS(fmt.Sprint("a", i/2)), VS(fmt.Sprint("b", i))}
+		}
+		wkey := func(i int) []Val {
+			if len(wt.CF) == 1 {
+				return []Val{VI(int64(i + 1))}
+			}
+			return []Val{VS(fmt.Sprint("x", i/2)), VS(fmt.Sprint("y", i))}
+		}
+		null := make([]Val, len(f.Parts))
+		for i := range null {
+			null[i] = VNull
+		}
+		var ps, ws, js []Row
+		for i := 0; i < 4; i++ {
+			p := Row{F: map[string]Val{"UID": VI(int64(101 + i)), "V": VI(int64(i))}}
+			setKey(&p, f.Parts, okey(i))
+			setKey(&p, pre("T", f.Parts), null)
+			setKey(&p, pre("B", f.Parts), null)
+			ps = append(ps, p)
+			w := Row{F: map[string]Val{"UID": VI(int64(601 + i)), "V": VI(int64(i + 1))}, Del: i == 3}
+			setKey(&w, wt.CF, wkey(i))
+			ws = append(ws, w)
+		}
+		for _, lk := range [][2]int{{0, 0}, {0, 1}, {1, 1}, {1, 2}, {2, 3}, {2, 0}, {3, 7}, {9, 2}} {
+			j := Row{F: map[string]Val{}}
+			setKey(&j, wt.JOwner, okey(lk[0]))
+			setKey(&j, wt.JTag, wkey(lk[1]))
+			js = append(js, j)
+		}
+		tw := map[string][]Row{"P": ps, "W": ws, "J4": js}
+		all := Cond{Kind: "all"}
+		for _, sh := range []string{"slice", "ptrs", "struct"} {
+			var sub []int64
+			if sh == "struct" {
+				sub = []int64{101}
+			}
+			for _, un := range []bool{false, true} {
+				out = append(out,
+					Input{Fam: fam, Rel: "WTags", Mode: "preload", Unscoped: un, Shape: sh, Subset: sub, Cond: all, Cond2: all, Tables: tw},
+					Input{Fam: fam, Rel: "WTags", Mode: "assoc", Unscoped: un, Shape: sh, Subset: sub, Cond: all, Cond2: all, Tables: tw})
+			}
+			out = append(out,
+				Input{Fam: fam, Rel: "WTags", Mode: "preload", Shape: sh, Subset: sub, Cond: Cond{Kind: "gt", A: 1, As: "inline"}, Cond2: all, Tables: tw},
+				Input{Fam: fam, Rel: "WTags", Mode: "assoc", Shape: sh, Subset: sub, Kept: true, Cond: Cond{Kind: "gt", A: 1, As: "inline"}, Cond2: Cond{Kind: "mod", A: 2, B: 1, As: "inline"}, Tables: tw})
+		}
 	}
 	// (d) relations whose keys are overridden by tags: polymorphic has many / has one with
 	//     `foreignKey:Code` and has many with `references:Code`, where a parent's Code reads like the
@@ -2258,7 +2414,7 @@ func main() {
 	lib.Must(err)
 	for _, fn := range famNames {
 		f := fams[fn]
-		for _, m := range []string{"T", "G", "H", "P", "O", "M", "N", "L", "C", "U"} {
+		for _, m := range []string{"T", "G", "H", "W", "P", "O", "M", "N", "L", "C", "U"} {
 			if mod, ok := f.Mod[m]; ok {
 				lib.Must(db.AutoMigrate(reflect.New(reflect.TypeOf(mod)).Interface()))
 			}
